@@ -258,6 +258,7 @@ def run(ctx):
     comment_scanner_reads_one_character_per_step(ctx)
     has_include_agrees_with_include(ctx)
     definedness_has_one_judge(ctx)
+    backward_trims_test_the_character_they_drop(ctx)
 
 
 def manifest_keys(ctx):
@@ -687,3 +688,66 @@ def definedness_has_one_judge(ctx):
         ok = {"__has_include", "__FILE__", "__LINE__"} <= names
         ctx.ob("R09.12", "is_manifest_defined|built-ins", ok, js[0].loc(), "the built-in names are %s" % sorted(x for x in names if x))
     ctx.floor("R09.12", "consumers of definedness", n, 3)
+
+
+def _is_local_minus(n, d, k):
+    """n is `<local d> - k` (k int), or the local itself for k == 0."""
+    n = strip_casts(peel(n)) if n is not None else None
+    if n is None:
+        return False
+    if k == 0:
+        return (local_ref(n) or {}).get("d") == d
+    return n.get("k") == "bin" and n.get("op") == "-" and (local_ref(n["x"]) or {}).get("d") == d and const_int(n["y"]) == k
+
+
+def backward_trims_test_the_character_they_drop(ctx):
+    """R09.13: the scanners cut an operand out of a line with two cursors and then drop trailing blanks by walking the end
+    cursor back: `while (t > r && isspace(X[t - 1])) --t;  ... X.substr(r, t - r)`.  With an EXCLUSIVE end cursor (the
+    length is `t - r`) the character that would be dropped is `X[t - 1]`; with an inclusive one (`last - first + 1`) it is
+    `X[last]`.  Testing the other one either strips nothing or strips a character too many.
+    (Seed S10-C09: `isspace(expr[t])` in expand_has_include_function - the `)` after the operand - so `__has_include( "x.h" )`
+    kept its trailing blank, was "invalid", and evaluated to 0 for a file that exists.)"""
+    db = ctx.db
+    ctx.rule("R09.13", "in a loop `while (t > r && isspace(X[e])) --t`, e is `t - 1` when the text is later taken as substr(r, t - r) and `t` when it is taken as substr(r, t - r + 1)")
+    n = 0
+    for f in db.functions:
+        if not any(d in f.file for d in ("/cppparser/", "/interrogate/", "/dtoolutil/")):
+            continue
+        for lp in f.walk():
+            if lp.get("k") != "while" or lp.get("c") is None:
+                continue
+            decs = [y for y in walk(lp.get("body") or {}) if y.get("k") == "un" and "--" in (y.get("op") or "") and local_ref(y.get("e")) is not None]
+            if len(decs) != 1:
+                continue
+            d = local_ref(decs[0]["e"])["d"]
+            name = local_ref(decs[0]["e"]).get("n")
+            subs = None
+            for c in walk(lp["c"]):
+                if c.get("k") == "call" and callee_short(c) == "isspace" and c.get("a"):
+                    for z in walk(c["a"][0]):
+                        if z.get("k") == "call" and callee_short(z) == "operator[]" and z.get("a"):
+                            subs = z["a"][-1]
+                        elif z.get("k") == "idx":
+                            subs = z.get("x")
+            if subs is None:
+                continue
+            # how is the cursor used afterwards?
+            style = None
+            for c in f.walk():
+                if c.get("k") == "call" and callee_short(c) == "substr" and len(c.get("a", [])) == 2 and c.get("i", 0) > lp.get("i", 0):
+                    ln = strip_casts(peel(c["a"][1]))
+                    if ln is None or ln.get("k") != "bin":
+                        continue
+                    if ln.get("op") == "-" and (local_ref(ln["x"]) or {}).get("d") == d:
+                        style = "exclusive"
+                    elif ln.get("op") == "+" and const_int(ln["y"]) == 1:
+                        inner = strip_casts(peel(ln["x"]))
+                        if inner is not None and inner.get("k") == "bin" and inner.get("op") == "-" and (local_ref(inner["x"]) or {}).get("d") == d:
+                            style = "inclusive"
+            if style is None:
+                continue
+            n += 1
+            ok = _is_local_minus(subs, d, 1) if style == "exclusive" else _is_local_minus(subs, d, 0)
+            ctx.ob("R09.13", "%s|trim(%s)|tests-the-dropped-character" % (f.name, name), ok, f.loc(lp),
+                   "end cursor `%s` is %s and the loop tests X[%s]" % (name, style, show(subs)))
+    ctx.floor("R09.13", "backward trim loops whose cursor delimits a substr", n, 3)
